@@ -837,7 +837,7 @@ func gen(w *kit.Out, r *kit.Rand, tier string) {
 	}
 
 	w.Case("r/hd")
-	for i := 0; i < scale(60, 1200); i++ {
+	for i := 0; i < scale(60, 700); i++ {
 		seed := r.Bytes(kit.Pick(r, []int{16, 32, 64, 64, 64}))
 		var parts []string
 		for j := 0; j < r.Range(1, 6); j++ {
@@ -923,7 +923,7 @@ func gen(w *kit.Out, r *kit.Rand, tier string) {
 	}
 
 	// ------------------------------------------------ 5. encrypted keys (bcrypt cost 12: the expensive part)
-	ncase := scale(2, 24)
+	ncase := scale(2, 12)
 	for c := 0; c < ncase; c++ {
 		w.Case(fmt.Sprintf("r/enc%d", c))
 		k := genKey(r)
